@@ -16,6 +16,15 @@ Sequences  (`run_sequences`) data dictionaries of MessageData entries driven thr
          with the Lean model of the whole call, `mdToNumpy` ("already converted?" test, update, removal), from the real members
          before it (stage C).
 
+Dictionaries  (`dictionary_scripts`, the unconvertible entries of `random_script`, `run_reads`) conversions of WHOLE dictionaries:
+         DataLoader.to_numpy(data) on dictionaries of three or four entries one or two of which cannot be converted (a message
+         type without payload class, empty or holding messages; a class with a variable-length list field whose messages carry
+         lists of different lengths, which np.array refuses with ValueError) standing ahead of / between / behind the
+         convertible ones (every class in each of the three places, small dictionaries in every iteration order), and
+         DataLoader.read(return_numpy=True) of generated logs (all types / listed types, one or two reads on a loader): EVERY
+         convertible entry must satisfy the oracle of the sequences whatever stands beside it, the others must be left as they
+         were; the loop of DataLoader.to_numpy is `loaderToNumpy` in Model/Numpy.lean (which entries are entered is compared).
+
 Inputs: random objects with pairwise distinct values (`cases`), and for every integer-valued field the boundary values of its
 wire type (`wire_cases`; the range of a field is what survives pack()/unpack()), as attributes and as produced by unpack().
 """
@@ -174,11 +183,83 @@ class Distinct:
                 return x
 
 
-def fill(obj, dist, rng, enum_pos, depth=0):
-    """assign a fresh valid value to every attribute of a default-constructed object (recursively)"""
+def tuple_types():
+    """name -> class of the NamedTuple types message fields are made of (elements of variable-length list fields, interface
+    identifiers): every NamedTuple class of the messages package whose defaults allow a bare construction"""
+    if not _TUPLE_TYPES:
+        import fusion_engine_client.messages as pkg
+        import fusion_engine_client.messages.configuration as conf
+        for mod in (pkg, conf):
+            for nm, c in vars(mod).items():
+                if isinstance(c, type) and issubclass(c, tuple) and hasattr(c, '_fields') and c.__module__.startswith('fusion_engine_client'):
+                    try:
+                        c()
+                    except Exception:     # noqa
+                        continue
+                    _TUPLE_TYPES[nm] = c
+    return _TUPLE_TYPES
+
+
+_TUPLE_TYPES = {}
+# element type of the variable-length list fields (by field name) whose elements are NamedTuples
+LIST_ELEMENT_TYPES = {'rates': 'RateResponseEntry', 'interfaces': 'InterfaceID'}
+
+
+def is_named_tuple(v):
+    return isinstance(v, tuple) and hasattr(type(v), '_fields')
+
+
+def make_tuple(T, values):
+    """T(*values) with every value given the type of the field's default (enumerations)"""
+    dflt = T()
+    vals = []
+    for d, x in zip(dflt, values):
+        if isinstance(d, enum.Enum):
+            try:
+                x = type(d)(x)
+            except ValueError:
+                pass
+        elif is_named_tuple(d) and isinstance(x, (list, tuple)):
+            x = make_tuple(type(d), x)
+        vals.append(x)
+    return T(*vals)
+
+
+def random_tuple(rng, T):
+    """an element with random in-range values: any member of an enumeration, 0..199 for an integer (the wire types are 8 and 16
+    bit unsigned)"""
+    vals = []
+    for d in T():
+        if isinstance(d, enum.Enum):
+            vals.append(rng.choice([m for m in type(d) if not str(m.name).startswith('_U_')]))
+        elif is_named_tuple(d):
+            vals.append(random_tuple(rng, type(d)))
+        elif isinstance(d, int):
+            vals.append(rng.randrange(0, 200))
+        else:
+            vals.append(d)
+    return T(*vals)
+
+
+def list_fields(cls):
+    """names of the variable-length list fields of the class whose element type is known"""
+    try:
+        d = vars(cls())
+    except Exception:     # noqa
+        return []
+    return [k for k, v in d.items() if isinstance(v, list) and LIST_ELEMENT_TYPES.get(k) in tuple_types()]
+
+
+def fill(obj, dist, rng, enum_pos, depth=0, list_len=None):
+    """assign a fresh valid value to every attribute of a default-constructed object (recursively).  list_len: the number of
+    elements given to every variable-length list field (None: left empty)"""
     from fusion_engine_client.messages.timestamp import Timestamp
     from fusion_engine_client.messages.measurement_details import MeasurementDetails
     for k, v in list(vars(obj).items()):
+        if list_len is not None and isinstance(v, list) and LIST_ELEMENT_TYPES.get(k) in tuple_types():
+            T = tuple_types()[LIST_ELEMENT_TYPES[k]]
+            setattr(obj, k, [random_tuple(rng, T) for _ in range(list_len)])
+            continue
         if isinstance(v, Timestamp):
             setattr(obj, k, Timestamp(dist.flt()))
         elif isinstance(v, (bool, np.bool_)):
@@ -211,6 +292,10 @@ def fill(obj, dist, rng, enum_pos, depth=0):
     return obj
 
 
+def tuple_ints(t):
+    return [tuple_ints(x) if is_named_tuple(x) else int(x) if isinstance(x, (int, enum.Enum, np.integer)) else repr(x) for x in t]
+
+
 def encode_obj(obj):
     """replayable description of an object: path -> value text (nested objects and lists of objects included)"""
     res = {}
@@ -221,6 +306,10 @@ def encode_obj(obj):
             t = val_text(v)
             if t != 'o':
                 res[p] = t
+            elif is_named_tuple(v):
+                res[p + '@nt'] = [type(v).__name__, tuple_ints(v)]
+            elif isinstance(v, list) and v and all(is_named_tuple(x) for x in v) and len({type(x) for x in v}) == 1:
+                res[p + '#nt'] = [type(v[0]).__name__, [tuple_ints(x) for x in v]]
             elif isinstance(v, list) and v and all(hasattr(x, '__dict__') for x in v):
                 res[p + '#'] = len(v)
                 for i, x in enumerate(v):
@@ -257,6 +346,10 @@ def decode_obj(cls, mp):
             p = prefix + k
             if p in mp:
                 setattr(o, k, decode_value(v, mp[p]))
+            elif (p + '@nt') in mp and mp[p + '@nt'][0] in tuple_types():
+                setattr(o, k, make_tuple(tuple_types()[mp[p + '@nt'][0]], mp[p + '@nt'][1]))
+            elif (p + '#nt') in mp and mp[p + '#nt'][0] in tuple_types():
+                setattr(o, k, [make_tuple(tuple_types()[mp[p + '#nt'][0]], x) for x in mp[p + '#nt'][1]])
             elif (p + '#') in mp:
                 from fusion_engine_client.messages.solution import SatelliteInfo
                 items = []
@@ -637,8 +730,13 @@ def make_case(ctx, cls, owner, n, invalid, how, stages=None, sources=None):
     dist = Distinct(rng)
     enum_pos = {}
     msgs = []
+    # variable-length list fields: the same number of elements (0..3) in every message of the list (lists of different lengths
+    # have no array form: see `ragged_field`)
+    list_len = rng.randrange(0, 4) if list_fields(cls) else None
+    if list_len is not None:
+        ctx.count('list_fields_with_%d_elements' % list_len)
     for i in range(n):
-        m = fill(cls(), dist, rng, enum_pos)
+        m = fill(cls(), dist, rng, enum_pos, list_len=list_len)
         if i in invalid:
             set_p1(m, float('nan'))
         if stages is not None:
@@ -807,7 +905,7 @@ def random_in_range(rng, lo, hi):
     return hi - (v - lo) if rng.random() < 0.3 else v
 
 
-def make_wire_case(ctx, cls, owner, known, unknown, values, invalid, how, form):
+def make_wire_case(ctx, cls, owner, known, unknown, values, invalid, how, form, list_lens=None):
     """values: one {path: value} per message for the integer fields (missing = a random value of the field's range).
     form 'attr': the values are stored into the attributes of a filled object; form 'unpack': that object is packed and the
     message handed to to_numpy is what unpack() makes of the bytes."""
@@ -830,6 +928,9 @@ def make_wire_case(ctx, cls, owner, known, unknown, values, invalid, how, form):
                     a = get_path(m, path)
                     xs = v if v is not None else [random_in_range(rng, lo, hi) for _ in range(a.size)]
                     set_path(m, path, np.array(xs, dtype=a.dtype).reshape(shape))
+            if list_lens is not None:
+                for k in list_fields(cls):
+                    setattr(m, k, [random_tuple(rng, tuple_types()[LIST_ELEMENT_TYPES[k]]) for _ in range(list_lens[i % len(list_lens)])])
             if i in invalid:
                 set_p1(m, float('nan'))
             msgs.append(m)
@@ -1018,10 +1119,13 @@ class Spy:
     def __init__(self, cls):
         self.cls = cls
         self.calls = 0
+        self.returned = 0
 
     def to_numpy(self, messages):
         self.calls += 1
-        return self.cls.to_numpy(messages)
+        res = self.cls.to_numpy(messages)
+        self.returned += 1
+        return res
 
     def __call__(self, *a, **k):
         return self.cls(*a, **k)
@@ -1053,6 +1157,81 @@ def seq_targets():
     return [(c, o) for c, o in targets() if hasattr(c, 'MESSAGE_TYPE')]
 
 
+# ---- entries of a data dictionary that cannot be converted ---------------------------------------------------------------------
+class NoPayloadClass:
+    """in a script's entry list: an entry for a message type that has no payload class (MessageData.message_class is None,
+    MessageData.to_numpy raises ValueError); the messages such an entry is given are of `pool_cls`"""
+
+    def __init__(self, mtype, pool_cls, pool_owner, plain_class=False):
+        self.MESSAGE_TYPE = mtype
+        self.pool_cls, self.pool_owner = pool_cls, pool_owner
+        # plain_class: the entry's message_class is a class that offers no to_numpy (instead of None)
+        self.plain_class = plain_class
+        self.__name__ = 'type-%d-%s' % (int(mtype), 'with-a-class-without-to_numpy' if plain_class else 'without-payload-class')
+
+
+class PlainPayload:
+    """a payload class that offers no array conversion"""
+
+
+def types_without_class():
+    """the message types the package lists without a payload class, and one number it does not list at all"""
+    from fusion_engine_client.messages import MessageType, message_type_to_class
+    return [t for t in MessageType if t not in message_type_to_class] + [54321]
+
+
+def type_from_int(v):
+    from fusion_engine_client.messages import MessageType
+    try:
+        return MessageType(int(v))
+    except ValueError:
+        return int(v)
+
+
+def ragged_classes():
+    """classes converted by the generic path that have a variable-length list field"""
+    return [(c, o) for c, o in seq_targets() if o == 'MessagePayload' and list_fields(c)]
+
+
+def ragged_field(owner, msgs):
+    """a description of the INPUT: the name of an attribute that holds sequences (lists, tuples, arrays) of different lengths in
+    the messages of the list.  Such a list has no array form (np.array refuses it with ValueError); only asked for classes
+    converted by the generic path, which stacks the attribute values as they are."""
+    if owner != 'MessagePayload' or len(msgs) < 2:
+        return None
+    for k in sorted(vars(msgs[0])):
+        vals = [vars(m).get(k) for m in msgs]
+        if all(isinstance(v, (list, tuple, np.ndarray)) for v in vals) and len({len(v) for v in vals}) > 1:
+            return k
+    return None
+
+
+def unconvertible(st, msgs):
+    """why the entry cannot be converted while it holds `msgs` (None: it can)"""
+    if st['noclass']:
+        return 'no-payload-class'
+    f = ragged_field(st['owner'], msgs)
+    return None if f is None else 'ragged-' + f
+
+
+_COUNTING = []
+
+
+def counting_message_data():
+    """MessageData with a record of the objects whose to_numpy() was entered (nothing else differs)"""
+    if not _COUNTING:
+        from fusion_engine_client.analysis.data_loader import MessageData
+
+        class CountingMessageData(MessageData):
+            entered = []
+
+            def to_numpy(self, *a, **k):
+                CountingMessageData.entered.append(id(self))
+                return super().to_numpy(*a, **k)
+        _COUNTING.append(CountingMessageData)
+    return _COUNTING[0]
+
+
 def alignable(cls):
     return 'p1_time' in vars(cls())
 
@@ -1065,8 +1244,13 @@ class Script:
         self.encoded = [[encode_obj(m) for m in pool] for _, _, pool in entries]      # before any in-place change
 
     def replay(self, upto, extra=None):
+        def desc(c, o, enc):
+            if isinstance(c, NoPayloadClass):
+                return {'message_type_without_payload_class': int(c.MESSAGE_TYPE), 'pool_class': c.pool_cls.__name__, 'pool': enc,
+                        'message_class_without_to_numpy': c.plain_class}
+            return {'class': c.__name__, 'to_numpy_of': o, 'pool': enc}
         r = {'kind': 'sequence', 'how': self.how,
-             'entries': [{'class': c.__name__, 'to_numpy_of': o, 'pool': enc} for (c, o, _), enc in zip(self.entries, self.encoded)],
+             'entries': [desc(c, o, enc) for (c, o, _), enc in zip(self.entries, self.encoded)],
              'ops': self.ops[:upto + 1]}
         if extra:
             r.update(extra)
@@ -1190,6 +1374,10 @@ def judge_step(ctx, classes, script, k, st, info, lines, plan):
     name = cls.__name__
     L, pre, remove = info['L'], info['pre'], info['remove']
     ei = st['index']
+    if st['noclass']:
+        ctx.violation('C16/MessageData/%s/to_numpy-raised' % name, 'MessageData(%s).to_numpy() raised %s after [%s]'
+                      % (name, info['err'], ops_text(script, k)), script.replay(k, {'entry': ei}))
+        return
     # no messages left (keep_messages=False, or the list emptied): the members may stay what they were (there is nothing to convert
     # from; they go on describing the list they were computed from), or be the conversion of the empty list
     post = numeric_members(md) if info['err'] is None else {}
@@ -1244,11 +1432,11 @@ def judge_step(ctx, classes, script, k, st, info, lines, plan):
                      'name': name, 'what': ops_text(script, k)})
 
 
-def judge_members(ctx, script, k, st, info, case, ref, post, post_ntd, change, rp):
-    """stage D for one conversion in a sequence: the class conversion of the current list against the fields (the statement
-    itself), then the members of the MessageData against that conversion"""
-    md, L, D, remove, name = st['md'], info['L'], case.msgs, info['remove'], case.cls.__name__
-    oracle_to_numpy(ctx, case, ref)
+def members_vs_conversion(members, case, ref, remove):
+    """the members of an entry against the class conversion `ref` of the list `case.msgs`: one verdict per accepted treatment of
+    the untimed positions (None = the members are that; else (key, 'shape' | 'value', expected)), the masks tried, and the number
+    of positions of the conversion"""
+    D = case.msgs
     ntd = metadata_ntd(ref)
     p1 = ref.get('p1_time')
     npos = len(p1) if isinstance(p1, np.ndarray) and p1.ndim == 1 else len(D) - leading_unknown(case)
@@ -1264,13 +1452,39 @@ def judge_members(ctx, script, k, st, info, case, ref, post, post_ntd, change, r
             if key == '__metadata__':
                 continue
             exp = expected_member(b, key in ntd, npos, mask)
-            how = member_matches(md.__dict__.get(key), exp)
+            how = member_matches(members.get(key), exp)
             if how != 'ok':
                 bad = (key, how, exp)
                 break
         verdicts.append(bad)
         if bad is None:
             break
+    return verdicts, masks, npos
+
+
+def judge_unconvertible(ctx, script, k, st, info):
+    """an entry that cannot be converted (message type without payload class; a list np.array refuses) after a conversion was
+    requested: it must be left as it was"""
+    md, pre, L = st['md'], info['pre'], info['L']
+    post = numeric_members(md)
+    same_list = isinstance(md.messages, list) and len(md.messages) == len(L) and all(a is b for a, b in zip(md.messages, L))
+    changed = sorted(key for key in set(pre) | set(post)
+                     if key not in pre or key not in post or member_matches(post[key], pre[key]) != 'ok')
+    ctx.count('seq_unconvertible_entry_' + info['why'].split('-')[0])
+    if changed or not same_list:
+        ctx.violation('C16/DataLoader/unconvertible-entry-not-left-as-it-was',
+                      'MessageData(%s) after [%s]: the entry cannot be converted (%s) but %s'
+                      % (st['cls'].__name__, ops_text(script, k), info['why'],
+                         ('its members %s changed' % changed) if changed else 'its message list changed'),
+                      script.replay(k, {'entry': st['index'], 'unconvertible': info['why']}))
+
+
+def judge_members(ctx, script, k, st, info, case, ref, post, post_ntd, change, rp):
+    """stage D for one conversion in a sequence: the class conversion of the current list against the fields (the statement
+    itself), then the members of the MessageData against that conversion"""
+    md, L, D, remove, name = st['md'], info['L'], case.msgs, info['remove'], case.cls.__name__
+    oracle_to_numpy(ctx, case, ref)
+    verdicts, masks, npos = members_vs_conversion(md.__dict__, case, ref, remove)
     if all(v is not None for v in verdicts):
         # (not one entry per message only if that is so whichever way the untimed entries are treated)
         shape_only = all(v[1] == 'shape' for v in verdicts)
@@ -1278,8 +1492,9 @@ def judge_members(ctx, script, k, st, info, case, ref, post, post_ntd, change, r
         a = md.__dict__.get(key)
         kind = 'arrays-not-one-entry-per-message' if shape_only else 'arrays-hold-other-messages'
         ctx.violation('C16/MessageData/sequence/%s/%s' % (change, kind),
-                      'MessageData(%s) after [%s]: the entry holds %d messages (%s since its members last described it) but %r %s'
-                      % (name, ops_text(script, k), len(L), change, key,
+                      'MessageData(%s)%s after [%s]: the entry holds %d messages (%s since its members last described it) but %r %s'
+                      % (name, info.get('where', '') + ('' if info.get('entered', True) else ' - its to_numpy() was never entered -'),
+                         ops_text(script, k), len(L), change, key,
                          ('has shape %s, expected %s' % (getattr(a, 'shape', None), getattr(exp, 'shape', None))) if how == 'shape'
                          else 'does not hold the values of these messages (it is not the conversion of the current list)'), rp)
     else:
@@ -1331,17 +1546,34 @@ def ops_text(script, upto):
     return ' ; '.join(one(op) for op in script.ops[:upto + 1])
 
 
+def dictionary_shape(kinds):
+    """where the entries that cannot be converted (v) stand relative to the convertible ones (c)"""
+    if 'v' not in kinds:
+        return 'all_convertible'
+    if 'c' not in kinds:
+        return 'nothing_convertible'
+    first = kinds.index('c')
+    last = len(kinds) - 1 - kinds[::-1].index('c')
+    return 'unconvertible_' + '+'.join(n for n, f in (('ahead', 'v' in kinds[:first]), ('between', 'v' in kinds[first:last]),
+                                                       ('behind', 'v' in kinds[last + 1:])) if f)
+
+
 def run_script(ctx, classes, script, lines, plan):
     import sys
     import warnings
-    from fusion_engine_client.analysis.data_loader import MessageData, DataLoader, TimeAlignmentMode
+    from fusion_engine_client.analysis.data_loader import DataLoader, TimeAlignmentMode
+    MD = counting_message_data()
     data = {}
     states = []
     for i, (cls, owner, pool) in enumerate(script.entries):
-        md = MessageData(cls.MESSAGE_TYPE, None)
+        md = MD(cls.MESSAGE_TYPE, None)
         data[cls.MESSAGE_TYPE] = md
-        states.append({'index': i, 'cls': cls, 'owner': owner, 'pool': pool, 'md': md, 'described': None, 'snap': None,
-                       'ends': None, 'produced': {}, 'added': 0})
+        if getattr(cls, 'plain_class', False):
+            md.message_class = PlainPayload
+        states.append({'index': i, 'message_class': md.message_class, 'cls': cls, 'owner': owner, 'pool': pool, 'md': md, 'described': None, 'snap': None,
+                       'ends': None, 'produced': {}, 'added': 0, 'noclass': isinstance(cls, NoPayloadClass)})
+    if len(data) != len(states):
+        raise fv.InfraError('two entries of one message type in a script')
     for k, op in enumerate(script.ops):
         o = op['op']
         st = states[op['entry']] if 'entry' in op else None
@@ -1374,34 +1606,63 @@ def run_script(ctx, classes, script, lines, plan):
                 except Exception:     # noqa  (alignment is C15's subject; whatever lists it left are the current lists)
                     ctx.count('seq_align_raised')
         elif o == 'numpy':
-            conv = states if op['via'] == 'loader' else [st]
+            loader = op['via'] == 'loader'
+            conv = states if loader else [st]
             infos = {}
             for s in conv:
-                spy = Spy(s['cls'])
-                infos[s['index']] = {'L': list(s['md'].messages), 'pre': numeric_members(s['md']), 'spy': spy,
+                L = list(s['md'].messages)
+                spy = None if s['noclass'] else Spy(s['cls'])
+                infos[s['index']] = {'L': L, 'pre': numeric_members(s['md']), 'spy': spy, 'why': unconvertible(s, L),
                                      'remove': op['remove'], 'err': None, 'keep_bytes': op['keep_bytes'], 'keep_index': op['keep_index']}
-                s['md'].message_class = spy
-            failed = None
+                if spy is not None:
+                    s['md'].message_class = spy
+            if loader and len(conv) > 1:
+                # the dictionary as the call sees it: (number of messages, ! = cannot be converted) per entry in iteration order
+                where = ', '.join('%s:%d%s' % (s['cls'].__name__, len(infos[s['index']]['L']),
+                                               '' if infos[s['index']]['why'] is None else '!' + infos[s['index']]['why']) for s in conv)
+                for s in conv:
+                    infos[s['index']]['where'] = ' (entry %d of the dictionary {%s})' % (s['index'], where)
+            del MD.entered[:]
+            failed, value_error = None, False
             with warnings.catch_warnings():
                 warnings.simplefilter('ignore')
                 try:
                     kw = dict(remove_nan_times=op['remove'], keep_messages=op['keep_messages'],
                               keep_message_bytes=op['keep_bytes'], keep_message_index=op['keep_index'])
-                    if op['via'] == 'loader':
+                    if loader:
                         DataLoader.to_numpy(data, **kw)
                     else:
                         md.to_numpy(**kw)
                 except Exception as e:     # noqa
                     failed = raising_entry(sys.exc_info()[2], conv) or conv[0]
                     infos[failed['index']]['err'] = '%s: %s' % (type(e).__name__, e)
+                    value_error = isinstance(e, ValueError)
+            entered = list(MD.entered)
             for s in conv:
-                s['md'].message_class = s['cls']
+                s['md'].message_class = s['message_class']
+                infos[s['index']]['entered'] = id(s['md']) in entered
             ctx.count('seq_numpy_via_' + op['via'])
-            if failed is not None:
+            # the ValueError of an entry that cannot be converted (it is what its own to_numpy() answers) is no failure of the call
+            refusal = failed is not None and value_error and infos[failed['index']]['why'] is not None
+            if loader:
+                kinds = ['v' if infos[s['index']]['why'] is not None else 'x' if (s is failed and not refusal) else 'c' for s in conv]
+                ctx.count('seq_dictionary_' + dictionary_shape(kinds))
+                if lines is not None:
+                    lines.append('np_loader %s' % (''.join(kinds) or '-'))
+                    plan.append({'loader': len(lines) - 1, 'kinds': kinds, 'observed': ''.join('a' if infos[s['index']]['entered'] else '-' for s in conv),
+                                 'rp': script.replay(k), 'what': ops_text(script, k)})
+            if failed is not None and not refusal:
                 judge_step(ctx, classes, script, k, failed, infos[failed['index']], lines, plan)
                 return
             for s in conv:
-                judge_step(ctx, classes, script, k, s, infos[s['index']], lines, plan)
+                info = infos[s['index']]
+                info['err'] = None
+                if info['why'] is not None and (info['spy'] is None or info['spy'].returned == 0):
+                    judge_unconvertible(ctx, script, k, s, info)
+                else:
+                    # (a list classified as having no array form that the class conversion nevertheless converted is judged like any
+                    # other: the members must mirror it)
+                    judge_step(ctx, classes, script, k, s, info, lines, plan)
                 ctx.cov['traces_validated_against_impl'] += 1
             ctx.case('seq %s %s' % ([e[0].__name__ for e in script.entries], json.dumps(script.ops[:k + 1], sort_keys=True)),
                      nontrivial=any(len(infos[i]['L']) for i in infos))
@@ -1415,6 +1676,17 @@ def flush_sequences(ctx, lines, plan):
     opaque_keys = ctx.cov.setdefault('opaque_keys_decided_by_running_only', [])
     ok = set(opaque_keys)
     for item in plan:
+        if 'loader' in item:
+            # the model of the loop of DataLoader.to_numpy: which entries' to_numpy() is entered
+            ans = outs[item['loader']].split(' ')
+            n = int(ans[1]) if len(ans) == 2 and ans[1].isdigit() else None
+            obs = item['observed']
+            # (whether the to_numpy() of an entry that cannot be converted is entered at all makes no difference to anything: only
+            # the convertible entries are compared)
+            if n is None or any(kd != 'v' and (ob == 'a') != (i < n) for i, (kd, ob) in enumerate(zip(item['kinds'], obs))):
+                ctx.disagree('DataLoader.to_numpy() after [%s]: to_numpy() was entered for the entries %r of the dictionary (a = entered), '
+                             'the model of the loop answers %r' % (item['what'], obs, outs[item['loader']]), item['rp'])
+            continue
         correspond_to_numpy(ctx, item['case'], item['ref'], outs[item['tn']], ok)
         if item['ms'] is None:
             continue
@@ -1436,16 +1708,19 @@ def flush_sequences(ctx, lines, plan):
 
 
 # ---- script generation ----
-def make_pool(ctx, cls, owner, size, grid, nan_prob, mixed_sources):
+def make_pool(ctx, cls, owner, size, grid, nan_prob, mixed_sources, list_lens=None):
     """`size` filled messages with pairwise distinct values; P1 times from the (sorted) grid in ascending order with random
-    gaps, a few invalid"""
+    gaps, a few invalid.  list_lens: the number of elements of the variable-length list fields of message i is
+    list_lens[i % len] (None: one random number 0..2 for the whole pool)"""
     from fusion_engine_client.messages.measurement_details import SystemTimeSource
     rng = ctx.rng
     dist = Distinct(rng)
     enum_pos = {}
     pool = []
+    if list_lens is None and list_fields(cls):
+        list_lens = [rng.randrange(0, 3)]
     for i in range(size):
-        m = fill(cls(), dist, rng, enum_pos)
+        m = fill(cls(), dist, rng, enum_pos, list_len=None if list_lens is None else list_lens[i % len(list_lens)])
         set_p1(m, float('nan') if rng.random() < nan_prob else grid[i % len(grid)])
         det = m if owner == 'MeasurementDetails' and not hasattr(m, 'details') else vars(m).get('details')
         if det is not None and hasattr(det, 'measurement_time_source'):
@@ -1574,6 +1849,100 @@ def directed_scripts(ctx, cls, owner, partners):
                     yield Script(entries, ops, 'directed/align-%s/%s' % (mode, shape))
 
 
+def unconvertible_entry(ctx, kind, pick, taken, grid):
+    """one entry of a script that cannot be converted (or can, depending on the messages it is given):
+    -> ((cls, owner, pool), [ids added first, ids added later], ids that make it convertible or None)
+    kind 'noclass-empty' / 'noclass-messages': a message type without payload class, holding nothing / messages of some class
+    kind 'ragged': a class with a variable-length list field; pool messages 0, 1, 2 have 1, 3, 0 elements (no array form in any
+                   combination), 3.. have 2 each.  `taken`: classes already in the dictionary"""
+    rng = ctx.rng
+    free = [(c, o) for c, o in seq_targets() if c not in taken]
+    rag = [(c, o) for c, o in ragged_classes() if c not in taken]
+    if kind == 'ragged' and rag:
+        rc, ro = rag[pick % len(rag)]
+        return (rc, ro, make_pool(ctx, rc, ro, 7, grid, 0.0, False, list_lens=[1, 3, 0, 2, 2, 2, 2])), [[0, 1], [2]], [3, 4, 5]
+    if kind == 'ragged':
+        kind = 'noclass-messages'
+    nc = types_without_class()
+    pc, po = rng.choice(free)
+    t = nc[pick % len(nc)]
+    entry = (NoPayloadClass(t, pc, po, plain_class=(t == nc[-1] and rng.random() < 0.5)), None, make_pool(ctx, pc, po, 4, grid, 0.0, False))
+    return entry, ([[], []] if kind == 'noclass-empty' else [[0, 1], [2]]), None
+
+
+def dictionary_scripts(ctx, tg, reps):
+    """conversions of whole dictionaries (DataLoader.to_numpy) that hold an entry which cannot be converted: for every class an
+    entry of it behind / around / ahead of such an entry, converted, given more messages, converted again (with the other
+    treatment of untimed entries), the unconvertible entry repaired where that is possible and everything converted again, then
+    once more with the messages released; and small dictionaries in every iteration order"""
+    import itertools
+    rng = ctx.rng
+    kinds = ['noclass-empty', 'ragged', 'noclass-messages', 'ragged']
+    shift = rng.randrange(4)
+
+    def ops_for(order, roles):
+        # roles: index in `order` -> ('conv', first ids, later ids) | ('unconv', first ids, later ids, repair ids or None)
+        r = rng.random() < 0.5
+        ops = []
+        for i, role in roles.items():
+            if role[1]:
+                ops.append({'op': 'add', 'entry': i, 'ids': role[1], 'meta': rng.random() < 0.7})
+        ops.append(numpy_op(0, r, True, True, True, 'loader'))
+        for i, role in roles.items():
+            if role[2]:
+                ops.append({'op': 'add', 'entry': i, 'ids': role[2], 'meta': False})
+        ops.append(numpy_op(0, not r, True, True, True, 'loader'))
+        for i, role in roles.items():
+            if role[0] == 'unconv' and role[3] is not None:
+                ops.append({'op': 'assign', 'entry': i, 'ids': role[3]})
+                ops.append(numpy_op(0, r, True, True, True, 'loader'))
+        ops.append(numpy_op(0, r, False, rng.random() < 0.5, rng.random() < 0.5, 'loader'))
+        return ops
+    # 1. every class behind / around / ahead of an unconvertible entry
+    for ti, (cls, owner) in enumerate(tg):
+        for pi, pos in enumerate(('ahead', 'between', 'behind')):
+            kind = kinds[(ti + pi + shift) % len(kinds)]
+            dist = Distinct(rng)
+            grid = sorted(dist.flt(10.0, 4000.0) for _ in range(8))
+            pc, po = rng.choice([(c, o) for c, o in tg if c is not cls and not list_fields(c)])
+            bad, bad_adds, repair = unconvertible_entry(ctx, kind, ti + pi, {cls, pc}, grid)
+            nanp = 0.25 if (ti + pi) % 2 else 0.0
+            target = (cls, owner, make_pool(ctx, cls, owner, 6, grid, nanp, False))
+            partner = (pc, po, make_pool(ctx, pc, po, 4, grid, nanp, False))
+            empty_partner = (ti + pi) % 3 == 0          # an entry without messages (its conversion is the empty one)
+            order = {'ahead': [bad, target, partner], 'between': [partner, bad, target], 'behind': [target, partner, bad]}[pos]
+            roles = {}
+            for i, e in enumerate(order):
+                if e is bad:
+                    roles[i] = ('unconv', bad_adds[0], bad_adds[1], repair)
+                elif e is target:
+                    roles[i] = ('conv', [0, 1, 2], [3, 4])
+                else:
+                    roles[i] = ('conv', [] if empty_partner else [0, 1], [2])
+            yield Script(order, ops_for(order, roles), 'dictionary/%s-%s' % (kind, pos))
+    # 2. every iteration order of a dictionary of three or four entries, one or two of which cannot be converted
+    for rep in range(reps):
+        for nbad in (1, 2):
+            dist = Distinct(rng)
+            grid = sorted(dist.flt(10.0, 4000.0) for _ in range(8))
+            good = rng.sample(tg, 2)
+            taken = {c for c, _ in good}
+            entries = [('conv', (c, o, make_pool(ctx, c, o, 5, grid, 0.2 * (rep % 2), False))) for c, o in good]
+            for b in range(nbad):
+                bad, bad_adds, repair = unconvertible_entry(ctx, kinds[(rep + b + shift) % len(kinds)], rep + b, taken, grid)
+                taken.add(bad[0] if not isinstance(bad[0], NoPayloadClass) else bad[0].pool_cls)
+                entries.append(('unconv', bad, bad_adds, repair))
+            if len({e[1][0].MESSAGE_TYPE for e in entries}) != len(entries):
+                continue
+            for perm in itertools.permutations(range(len(entries))):
+                order = [entries[j][1] for j in perm]
+                roles = {}
+                for i, j in enumerate(perm):
+                    e = entries[j]
+                    roles[i] = ('conv', [0, 1, 2], [3]) if e[0] == 'conv' else ('unconv', e[2][0], e[2][1], e[3])
+                yield Script(order, ops_for(order, roles), 'dictionary/every-order-%d' % len(entries))
+
+
 def random_script(ctx, cls, owner, partners):
     rng = ctx.rng
     dist = Distinct(rng)
@@ -1583,11 +1952,30 @@ def random_script(ctx, cls, owner, partners):
         ents += rng.sample(partners, rng.choice([1, 2]) if len(partners) > 1 else 1)
     nanp = rng.choice([0.0, 0.0, 0.15, 0.4])
     mixed = rng.random() < 0.3
+    # entries that cannot (always) be converted, anywhere in the dictionary: a message type without payload class, a class with a
+    # variable-length list field whose pool messages carry lists of different lengths
+    with_unconvertible = rng.random() < 0.35
+    if with_unconvertible:
+        for _ in range(rng.choice([1, 1, 2])):
+            taken = {c.pool_cls if isinstance(c, NoPayloadClass) else c for c, *_ in ents}
+            if rng.random() < 0.5:
+                rag = [(c, o) for c, o in ragged_classes() if c not in taken]
+                if rag:
+                    ents.insert(rng.randrange(len(ents) + 1), rng.choice(rag) + ('ragged',))
+                    continue
+            nc = [t for t in types_without_class() if t not in [c.MESSAGE_TYPE for c, *_ in ents]]
+            pc, po = rng.choice([(c, o) for c, o in seq_targets() if c not in taken])
+            t = rng.choice(nc)
+            ents.insert(rng.randrange(len(ents) + 1), (NoPayloadClass(t, pc, po, plain_class=(t == 54321 and rng.random() < 0.5)), None))
     entries = []
-    for c, o in ents:
+    for c, o, *mark in ents:
         size = rng.randrange(4, 11)
         times = sorted(rng.sample(grid, min(len(grid), size))) if rng.random() < 0.8 else [rng.choice(grid) for _ in range(size)]
-        entries.append((c, o, make_pool(ctx, c, o, size, times, nanp, mixed)))
+        if isinstance(c, NoPayloadClass):
+            entries.append((c, o, make_pool(ctx, c.pool_cls, c.pool_owner, size, times, nanp, mixed)))
+        else:
+            entries.append((c, o, make_pool(ctx, c, o, size, times, nanp, mixed,
+                                            list_lens=[rng.randrange(0, 3) for _ in range(size)] if mark else None)))
     ops = []
     length = {}       # the generator's idea of the list lengths (alignment makes it approximate: positions are clamped at run time)
     for i, e in enumerate(entries):
@@ -1623,7 +2011,7 @@ def random_script(ctx, cls, owner, partners):
         elif len(entries) > 1:
             ops.append({'op': 'align', 'mode': rng.choice(['INSERT', 'DROP']),
                         'types': None if rng.random() < 0.7 else sorted(rng.sample(range(len(entries)), rng.randrange(1, len(entries) + 1)))})
-    ops.append(numpy_op(0, rng.random() < 0.6, True, True, True, rng.choice(['entry', 'loader'])))
+    ops.append(numpy_op(0, rng.random() < 0.6, True, True, True, 'loader' if with_unconvertible else rng.choice(['entry', 'loader'])))
     return Script(entries, ops, 'random')
 
 
@@ -1637,6 +2025,8 @@ def sequence_scripts(ctx, reps):
             yield s
         for _ in range(reps):
             yield random_script(ctx, cls, owner, partners)
+    for s in dictionary_scripts(ctx, tg, max(1, reps // 6)):
+        yield s
 
 
 def run_sequences(ctx, classes, reps, with_model=True):
@@ -1650,14 +2040,214 @@ def run_sequences(ctx, classes, reps, with_model=True):
         flush_sequences(ctx, lines, plan)
 
 
+# ---- whole logs through DataLoader.read(return_numpy=True) ---------------------------------------------------------------------
+# A log holds messages of two to four convertible classes (some with untimed messages) and mostly also messages of a class with a
+# variable-length list field (lists of different lengths: the entry cannot be converted); it is read with return_numpy=True for all
+# message types or for a listed set (which may name types without payload class and types absent from the log), with every
+# combination of remove_nan_times / keep_messages / return_message_index, once or twice on one loader (the second read finds some
+# entries in the cache).  Every entry of every result is judged like an entry of a script: a convertible one must carry the
+# conversion of its messages (those of its type in the log, in log order), the others no numpy members at all.
+SIG_READ = 'C16/DataLoader.read/return_numpy'
+
+
+def file_messages(ctx, cls, owner, n, invalid, list_lens=None):
+    """n message objects of the class that survive pack() (None: the class offers none)"""
+    known, unknown = wire_fields(ctx, cls)
+    case = make_wire_case(ctx, cls, owner, known, unknown, [{} for _ in range(n)], invalid, 'file', 'unpack', list_lens=list_lens)
+    return None if case is None else case.msgs
+
+
+def make_read_case(ctx, target):
+    from fusion_engine_client.parsers import FusionEngineEncoder
+    rng = ctx.rng
+    tg = seq_targets()
+    chosen = [target] + rng.sample([(c, o) for c, o in tg if c is not target[0] and not list_fields(c)], rng.choice([1, 2, 3]))
+    per = []
+    for c, o in chosen:
+        n = rng.randrange(1, 5)
+        invalid = set() if rng.random() < 0.5 else {i for i in range(n) if rng.random() < 0.35}
+        msgs = file_messages(ctx, c, o, n, invalid, list_lens=[rng.randrange(0, 3)] if list_fields(c) else None)
+        if msgs is not None:
+            per.append((c, msgs))
+    rag = [(c, o) for c, o in ragged_classes() if c not in {x[0] for x in per}]
+    kind = rng.choice(['ragged', 'ragged', 'ragged', 'same-length', 'absent'])
+    if rag and kind != 'absent':
+        rc, ro = rng.choice(rag)
+        lens = rng.choice([[1, 3], [0, 2], [2, 1, 2], [3, 0], [1, 1, 2]]) if kind == 'ragged' else [rng.randrange(0, 3)] * rng.randrange(1, 4)
+        msgs = file_messages(ctx, rc, ro, len(lens), set(), list_lens=lens)
+        if msgs is not None:
+            per.append((rc, msgs))
+    if not per:
+        return None
+    queues = [list(m) for _, m in per]
+    log = []
+    enc = FusionEngineEncoder()
+    while any(queues):
+        qi = rng.choice([i for i, q in enumerate(queues) if q])
+        try:
+            log.append({'class': per[qi][0].__name__, 'framed_hex': bytes(enc.encode_message(queues[qi].pop(0))).hex()})
+        except Exception:     # noqa  (encoding is not this property's subject)
+            ctx.count('read_message_not_encodable')
+    in_file = sorted({int(c.MESSAGE_TYPE) for c, _ in per})
+    no_class = [int(t) for t in types_without_class()[:-1]]
+    absent = [int(c.MESSAGE_TYPE) for c, _ in tg if int(c.MESSAGE_TYPE) not in in_file]
+
+    def listed():
+        ts = list(in_file) + rng.sample(no_class, rng.choice([0, 1, 1, 2])) + rng.sample(absent, rng.choice([0, 1, 2]))
+        if rng.random() < 0.3 and len(in_file) > 1:
+            ts.remove(rng.choice(in_file))
+        rng.shuffle(ts)
+        return ts
+    flags = {'remove_nan_times': rng.random() < 0.6, 'keep_messages': rng.random() < 0.5, 'return_bytes': rng.random() < 0.15,
+             'return_message_index': rng.random() < 0.5}
+    reads = [dict(flags, types=None if rng.random() < 0.4 else listed())]
+    if rng.random() < 0.5:
+        f2 = flags if rng.random() < 0.7 else dict(flags, keep_messages=not flags['keep_messages'])
+        reads.append(dict(f2, types=listed() if reads[0]['types'] is None or rng.random() < 0.5 else None))
+    return {'kind': 'read', 'how': 'log-with-%s-list-lengths' % kind, 'log': log, 'index_file': rng.random() < 0.3, 'reads': reads}
+
+
+def run_read_case(ctx, rc):
+    import logging
+    import os
+    import shutil
+    import sys
+    import tempfile
+    import traceback
+    import warnings
+    from fusion_engine_client.analysis.data_loader import DataLoader
+    from fusion_engine_client.messages import MessageHeader
+    by_name = {c.__name__: (c, o) for c, o in seq_targets()}
+    by_type = {int(c.MESSAGE_TYPE): (c, o) for c, o in seq_targets()}
+    hs = MessageHeader.calcsize()
+    expected = {}
+    data = b''
+    for e in rc['log']:
+        if e['class'] not in by_name:
+            raise fv.InfraError('unknown class %s' % e['class'])
+        c, _ = by_name[e['class']]
+        framed = bytes.fromhex(e['framed_hex'])
+        m = c()
+        with warnings.catch_warnings():
+            warnings.simplefilter('ignore')
+            m.unpack(framed[hs:])
+        expected.setdefault(int(c.MESSAGE_TYPE), []).append(m)
+        data += framed
+    workdir = tempfile.mkdtemp(prefix='c16_', dir=fv.BUILD)
+    logging.disable(logging.CRITICAL)
+    try:
+        path = os.path.join(workdir, 'c16.p1log')
+        with open(path, 'wb') as f:
+            f.write(data)
+        with warnings.catch_warnings():
+            warnings.simplefilter('ignore')
+            loader = DataLoader(path, save_index=bool(rc['index_file']), ignore_index=not rc['index_file'], num_threads=1)
+            for j, rd in enumerate(rc['reads']):
+                types = None if rd['types'] is None else [type_from_int(v) for v in rd['types']]
+                rp = dict(rc, reads=rc['reads'][:j + 1])
+                try:
+                    res = loader.read(message_types=types, return_numpy=True, show_progress=False, keep_messages=rd['keep_messages'],
+                                      remove_nan_times=rd['remove_nan_times'], return_bytes=rd['return_bytes'],
+                                      return_message_index=rd['return_message_index'])
+                except Exception as e:     # noqa
+                    if any(fr.name == 'to_numpy' for fr in traceback.extract_tb(sys.exc_info()[2])):
+                        ctx.violation(SIG_READ + '/raised', 'read(return_numpy=True) of a log of %d messages raised %s: %s from the numpy '
+                                      'conversion' % (len(rc['log']), type(e).__name__, e), rp)
+                    else:
+                        ctx.count('read_raised_outside_the_conversion')
+                    break
+                ctx.count('read_%s_types' % ('all' if types is None else 'listed'))
+                ctx.count('read_number_%d_on_the_loader' % (j + 1))
+                judge_read_result(ctx, res, expected, by_type, rd, rp)
+                ctx.cov['traces_validated_against_impl'] += 1
+                ctx.case('read %s' % json.dumps(rp, sort_keys=True), nontrivial=True)
+            try:
+                loader.close()
+            except Exception:     # noqa
+                pass
+    finally:
+        logging.disable(logging.NOTSET)
+        shutil.rmtree(workdir, ignore_errors=True)
+
+
+def judge_read_result(ctx, res, expected, by_type, rd, rp):
+    kinds = []
+    for t, md in res.items():
+        E = expected.get(int(t), [])
+        members = md.__dict__
+        extra = sorted(k for k in members if k not in SEQ_BASE_ATTRS)
+        held = list(md.messages) if isinstance(md.messages, list) else []
+        if held and len(held) != len(E):
+            ctx.count('read_entry_list_differs_from_the_log')        # (which messages read() returns is C12's subject)
+        D = held if held else E
+        where = 'entry %s (%d of %d in the result), %d messages of that type in the log' % (
+            getattr(t, 'name', t), list(res.keys()).index(t) + 1, len(res), len(E))
+        if int(t) not in by_type:
+            why = 'no-payload-class'
+        else:
+            cls, owner = by_type[int(t)]
+            f = ragged_field(owner, D)
+            why = None if f is None else 'ragged-' + f
+        if why is not None:
+            ref = None
+            if why.startswith('ragged'):
+                ref, _ = run_real(Case(cls, owner, D, 'read'))
+            if ref is None:
+                kinds.append('v')
+                ctx.count('read_unconvertible_entry_' + why.split('-')[0])
+                if extra:
+                    ctx.violation('C16/DataLoader/unconvertible-entry-not-left-as-it-was',
+                                  'read(return_numpy=True): %s cannot be converted (%s) but has the members %s' % (where, why, extra),
+                                  dict(rp, type=int(t)))
+                continue
+        kinds.append('c')
+        case = Case(cls, owner, D, 'read')
+        ref, err = run_real(case)
+        if err is not None:
+            ctx.violation('C16/%s/to_numpy-raised' % cls.__name__, '%s.to_numpy(%d messages) raised %s' % (cls.__name__, len(D), err), case.replay())
+            continue
+        oracle_to_numpy(ctx, case, ref)
+        verdicts, masks, npos = members_vs_conversion(members, case, ref, rd['remove_nan_times'])
+        ctx.count('read_entry_judged_%s' % ('with_messages' if D else 'empty'))
+        if all(v is not None for v in verdicts):
+            shape_only = all(v[1] == 'shape' for v in verdicts)
+            key, how, exp = verdicts[0] if shape_only else next(v for v in verdicts if v[1] != 'shape')
+            a = members.get(key)
+            ctx.violation('%s/%s' % (SIG_READ, 'arrays-not-one-entry-per-message' if shape_only else 'arrays-hold-other-messages'),
+                          'read(return_numpy=True, %s): %s: %r %s' % (
+                              ', '.join('%s=%s' % (k, v) for k, v in rd.items() if k != 'types'), where, key,
+                              ('is missing' if a is None else 'has shape %s' % (getattr(a, 'shape', None),)) +
+                              ', expected shape %s' % (getattr(exp, 'shape', None),) if how == 'shape'
+                              else 'does not hold the values of these messages'), dict(rp, type=int(t), key=key))
+    ctx.count('read_dictionary_' + dictionary_shape(kinds))
+
+
+def run_reads(ctx, reps):
+    tg = seq_targets()
+    for target in tg:
+        for _ in range(reps):
+            rc = make_read_case(ctx, target)
+            if rc is None:
+                ctx.count('read_case_unavailable_' + target[0].__name__)
+                continue
+            ctx.count('read_' + rc['how'])
+            run_read_case(ctx, rc)
+
+
 def script_from_replay(r):
     by = {c.__name__: (c, o) for c, o in targets()}
     entries = []
     for e in r['entries']:
-        if e['class'] not in by:
-            raise fv.InfraError('unknown class %s' % e['class'])
-        c, o = by[e['class']]
-        entries.append((c, o, [decode_obj(c, mp) for mp in e['pool']]))
+        name = e.get('class', e.get('pool_class'))
+        if name not in by:
+            raise fv.InfraError('unknown class %s' % name)
+        c, o = by[name]
+        pool = [decode_obj(c, mp) for mp in e['pool']]
+        if 'message_type_without_payload_class' in e:
+            entries.append((NoPayloadClass(type_from_int(e['message_type_without_payload_class']), c, o,
+                                           bool(e.get('message_class_without_to_numpy'))), None, pool))
+        else:
+            entries.append((c, o, pool))
     return Script(entries, r['ops'], r.get('how', 'replay'))
 
 
@@ -1746,6 +2336,9 @@ def run_corpus(ctx, classes, limit=300):
             if r.get('kind') == 'sequence':
                 run_script(ctx, classes, script_from_replay(r), lines, plan)
                 ctx.count('corpus_sequence')
+            elif r.get('kind') == 'read':
+                run_read_case(ctx, {k: v for k, v in r.items() if k not in ('type', 'key')})
+                ctx.count('corpus_read')
             else:
                 batch.append(case_from_replay(r))
                 ctx.count('corpus_case')
@@ -1799,9 +2392,11 @@ def search(ctx):
                     if err is None:
                         oracle_to_numpy(ctx, case, real)
         run_sequences(ctx, None, 12, with_model=False)
+        run_reads(ctx, 2)
         return
     # the oracle does not need the driver: keep going even if it cannot be built
     run_sequences(ctx, classes, 12, with_model=False)
+    run_reads(ctx, 2)
     for case in cases(ctx, classes, 8, 6):
         real, err = run_real(case)
         if err is not None:
@@ -1838,7 +2433,21 @@ def check(ctx):
                        'of these between two conversions plus random scripts of 4..10 operations; after EVERY conversion the numpy '
                        'members of each converted entry are compared with the conversion of the list it held at that moment (with '
                        'the untimed positions removed from all of them or from none), or must be unchanged / the empty conversion when '
-                       'it held no messages. Non-trivial = at least one message; '
+                       'it held no messages. WHOLE DICTIONARIES: DataLoader.to_numpy(data) on dictionaries holding, besides convertible '
+                       'entries (one of them without messages in a third of the scripts), one or two entries that cannot be converted '
+                       '- a message type without payload class (INVALID, the deprecated heading types, RESERVED, an unlisted number - that one also with a message_class offering no to_numpy; '
+                       'empty or holding messages), a class with a variable-length list field (MessageRateResponse.rates, '
+                       'SupportedIOInterfacesMessage.interfaces) whose messages list different numbers of elements - for every '
+                       'registered class with such an entry ahead of it, on both sides of it, behind it, and dictionaries of three / '
+                       'four entries in every iteration order; converted, more messages added, converted again with the other '
+                       'remove_nan_times, the ragged entry given lists of equal length (now it must be converted too), converted with '
+                       'the messages released; a third of the random scripts hold such entries at random places; '
+                       'DataLoader.read(return_numpy=True) of generated logs (two to four convertible classes, untimed messages, '
+                       'mostly a ragged class; all types or a listed set naming types without class and types absent from the log; '
+                       'every combination of remove_nan_times / keep_messages / return_message_index, sometimes return_bytes, with and '
+                       'without index file; a second read on the same loader): every convertible entry must carry the conversion of '
+                       'its messages, every other entry must be left as it was (variable-length list fields are given 0..3 elements, '
+                       'the same number in every message, in all the other inputs). Non-trivial = at least one message; '
                        'distinct = distinct model request' % (8 if ctx.thorough else 5))
     ctx.assumptions += [
         'the extracted table (Generated/Numpy.lean) is the model of the to_numpy sources: validated on every run by evaluating it '
@@ -1850,6 +2459,11 @@ def check(ctx):
         'count and the first and last P1 time, dict update, NaN removal): validated step by step, from the real members before '
         'each call and the real class conversion of the current list to the real members after it; keep_message_bytes / '
         'keep_message_index = False (members emptied by the call) are outside the model',
+        'DataLoader.to_numpy(data) is modelled by Model/Numpy.lean loaderToNumpy (the loop over the values with the ValueError of one '
+        'entry caught inside it): validated on every such call by the set of convertible entries whose to_numpy() is entered (a MessageData '
+        'subclass that records the calls and does nothing else), each entry\'s own conversion by mdToNumpy as above. Whether an '
+        'entry can be converted is read off the INPUT: its message type has a payload class, and no attribute of its messages '
+        '(generic path) holds sequences of different lengths',
         'tools/props/c16.py walks object attributes and encodes them for the model (Timestamp -> its .seconds bit pattern, enum -> '
         'its integer): this encoder is in the trusted base of the correspondence, the oracle reads the objects independently']
     classes = translate(ctx)
@@ -1863,6 +2477,7 @@ def check(ctx):
             run_corpus(ctx, classes)
             run(ctx, classes, 24 if ctx.thorough else 8, 8 if ctx.thorough else 5)
             run_sequences(ctx, classes, 30 if ctx.thorough else 6)
+            run_reads(ctx, 4 if ctx.thorough else 1)
         except fv.InfraError:
             if not ctx.proof_failures:
                 raise
@@ -1874,6 +2489,11 @@ def replay(ctx, path):
     r = obj['input']
     classes = translate(ctx)
     ctx._classes = classes
+    if r.get('kind') == 'read':
+        run_read_case(ctx, {k: v for k, v in r.items() if k not in ('type', 'key')})
+        for sig, desc, _ in ctx.violations[:5]:
+            print('replayed: %s: %s' % (sig, desc))
+        return fv.finish(ctx, 'proof', None)
     if r.get('kind') == 'sequence':
         script = script_from_replay(r)
         lines, plan = [], []
